@@ -35,6 +35,10 @@ type c10Cb struct {
 	closeTimes    int
 	closeAfterBlk bool
 	closeReturned int32
+	// user operations issued inside OnData right after its Close(): error classes observed
+	opsAfterClose bool
+	flushAfter    string
+	readAfter     string
 }
 
 func (c *c10Cb) OnData(r BufferReader) {
@@ -64,6 +68,13 @@ func (c *c10Cb) OnData(r BufferReader) {
 			for i := 0; i < n; i++ {
 				_ = c.stream.Close()
 				atomic.AddInt32(&c.closeReturned, 1)
+			}
+			if c.opsAfterClose {
+				_, _ = c.stream.BufferWriter().WriteBytes([]byte{0x77})
+				c.flushAfter = c20ErrClassT(c.stream.Flush(false))
+				// recvBuf is empty here (everything was read above): a read must not block, it reports the close
+				_, rerr := r.ReadBytes(r.Len() + 1)
+				c.readAfter = c20ErrClassT(rerr)
 			}
 		}
 		if c.blockOn != 0 && x == c.blockOn && c.blocked != nil {
@@ -553,6 +564,11 @@ func TestVerif_C10(t *testing.T) {
 		}
 		emit(c)
 	}
+	for _, sc := range []string{"inside-ops", "during-ops"} {
+		c := c10OpsAfterClose(c10Case{ID: id, Mode: "callback", Scenario: sc})
+		id++
+		o.emit(c)
+	}
 	// last (a failing one leaves a lost goroutine behind): Close() inside OnData whose CAS cannot succeed
 	for _, sc := range []string{"inside-twice", "inside-after-peer-close"} {
 		c := c10InsideCase(c10Case{ID: id, Mode: "callback", Scenario: sc})
@@ -763,6 +779,106 @@ func c10InsideCase(c c10Case) c10Case {
 	return c
 }
 
+// c10OpsAfterClose: user operations after a Close() that left the stream locally half-closed (an OnData is running):
+//   inside-ops   OnData calls Close(), then WriteBytes+Flush and a read, all inside the same OnData
+//   during-ops   OnData is parked; another goroutine calls Close(), then WriteBytes+Flush; then OnData is released
+// Every one of these operations must fail with a closed-stream error and the peer must receive nothing flushed
+// after the Close.
+func c10OpsAfterClose(c c10Case) c10Case {
+	blocked, release := make(chan struct{}), make(chan struct{})
+	inside := c.Scenario == "inside-ops"
+	mk := func(s *Stream) *c10Cb {
+		if inside {
+			return &c10Cb{closeOn: 0xEE, opsAfterClose: true}
+		}
+		return &c10Cb{blockOn: 0xDD, blocked: blocked, release: release}
+	}
+	client, server, l := c10Pair(true, mk)
+	if client == nil {
+		c.Skipped = "session pair could not be created"
+		return c
+	}
+	defer func() {
+		client.Close()
+		server.Close()
+	}()
+	cs, err := client.OpenStream()
+	if err != nil {
+		c.Skipped = "OpenStream failed"
+		return c
+	}
+	ccb := &c10Cb{stream: cs}
+	_ = cs.SetCallbacks(ccb)
+	if c10Flush(cs, []byte{1, 2, 3}) != nil {
+		c.Skipped = "first Flush failed"
+		return c
+	}
+	var ss *Stream
+	var scb *c10Cb
+	select {
+	case ss = <-l.ch:
+		scb = <-l.cb
+	case <-time.After(c10Wait):
+		c.Skipped = "server never saw the stream"
+		return c
+	}
+	c10WaitFor(c10Wait, func() bool { return scb.gotLen() >= 3 })
+	or := map[string]bool{}
+	flushAfter, readAfter := "", ""
+	if inside {
+		_ = c10Flush(cs, []byte{0xEE})
+		if !c10WaitFor(c10Wait, func() bool { return atomic.LoadInt32(&scb.closeReturned) >= 1 }) {
+			c.Skipped = "OnData never closed"
+			return c
+		}
+		c10WaitFor(c10Wait, func() bool { return atomic.LoadUint32(&ss.state) == uint32(streamClosed) })
+		flushAfter, readAfter = scb.flushAfter, scb.readAfter
+	} else {
+		_ = c10Flush(cs, []byte{0xDD})
+		select {
+		case <-blocked:
+		case <-time.After(c10Wait):
+			c.Skipped = "OnData never blocked"
+			close(release)
+			return c
+		}
+		_ = ss.Close()
+		c.Obs.States = append(c.Obs.States, atomic.LoadUint32(&ss.state))
+		_, _ = ss.BufferWriter().WriteBytes([]byte{0x77})
+		flushAfter = c20ErrClassT(ss.Flush(false))
+		close(release)
+		c10WaitFor(c10Wait, func() bool { return atomic.LoadUint32(&ss.state) == uint32(streamClosed) })
+	}
+	c.Obs.CloserFlush, c.Obs.CloserRead = flushAfter, readAfter
+	if flushAfter != "ErrStreamClosed" {
+		or["finality: Flush after Close() (stream locally half-closed, OnData still running) returned "+flushAfter] = true
+	}
+	if inside && readAfter != "ErrEndOfStream" && readAfter != "ErrStreamClosed" {
+		or["finality: a read on the empty buffer after Close() inside OnData returned "+readAfter] = true
+	}
+	// the peer: learns about the close and never sees the byte flushed after it
+	c10WaitFor(c10Wait, func() bool { return atomic.LoadInt32(&ccb.remote) >= 1 })
+	time.Sleep(20 * time.Millisecond)
+	ccb.mu.Lock()
+	for _, b := range ccb.got {
+		if b == 0x77 {
+			or["finality: the peer received bytes that were flushed after the local Close()"] = true
+		}
+	}
+	ccb.mu.Unlock()
+	c.Obs.PeerGot = ccb.gotLen()
+	c.Obs.PeerRemote = int(atomic.LoadInt32(&ccb.remote))
+	if c.Obs.PeerRemote != 1 {
+		or[fmt.Sprintf("peer: OnRemoteClose delivered %d times", c.Obs.PeerRemote)] = true
+	}
+	_ = cs.Close()
+	c.Obs.CloserState = atomic.LoadUint32(&ss.state)
+	for k := range or {
+		c.Oracle = append(c.Oracle, k)
+	}
+	return c
+}
+
 // ---- mechanism S: closer-heavy configurations on the controlled scheduler ----
 func TestVerif_C10S(t *testing.T) {
 	seed := uint64(venvInt("VERIF_SEED", 1))
@@ -784,9 +900,32 @@ func TestVerif_C10S(t *testing.T) {
 		if c.NCl == 0 && len(c.Script) == 0 {
 			c.Script = [][2]int{{1, 1}}
 		}
-		strat, mk := c20Strategy(r, id, 1+c.NCl)
+		c20GenFlushes(r, &c, 45)
+		strat, mk := c20Strategy(r, id, 1+c.NCl+len(c.Ups))
 		c.Strat = strat
 		o.emit(c20Run(env, c, mk, 3000))
+	}
+	// Flush after Close in each non-open state: inside OnData right after its Close() (localHalfClosed), from a user
+	// thread while OnData runs after a closer's Close() (localHalfClosed), after the peer's close (halfClosed), after
+	// the close completed (closed)
+	for x := 0; x < 4; x++ {
+		for k := 0; k <= 9; k++ {
+			c := c20Case{ID: id, Kind: "flush-after-close", Cmp: true, Cb0: true, Inb: [][]int{{1, 2}}, Script: [][2]int{{1, 1}}, InFl: []int{2}}
+			switch k % 3 {
+			case 1: // a user thread flushes while a closer closes during OnData; the peer's close may come first
+				c.Inb = [][]int{{1, 2}, {}}
+				c.Script, c.InFl = [][2]int{{1, 0}}, nil
+				c.Ups = [][]int{{9, 8}}
+				c.NCl = 1
+			case 2: // OnData flushes after the peer's close, then closes, then flushes again: two invocations
+				c.Inb = [][]int{{1, 2}, {}, {3}}
+				c.Script, c.InFl = [][2]int{{1, 0}, {1, 1}}, []int{1, 1}
+			}
+			c.Strat = fmt.Sprintf("systematic-preempt(t%d@%d)", x, k)
+			x, k := x, k
+			o.emit(c20Run(env, c, func() vsChooser { return vsPreemptChooser(newVrand(seed+uint64(id)), x, k) }, 3000))
+			id++
+		}
 	}
 	// synchronous mode (no callbacks): Close racing the peer's close notification, systematically
 	for x := 0; x < 2; x++ {
